@@ -35,6 +35,7 @@ SHARED = {
     "Footprint": ["C10", "C09", "C17"],
     "GenDiff": ["C12"],
     "GenAlg": ["C13"],
+    "GenMul": ["C06"],
     "GenMethod": ["C01", "C02", "C03", "C04", "C07", "C09", "C10", "C17"],
 }
 
